@@ -110,25 +110,59 @@ WidthsFor(m) ==
 
 MinWidth(m) == CHOOSE w \in WidthsFor(m) : \A u \in WidthsFor(m) : w <= u
 
-(* ---------- floats: shortest lossless form, table driven ---------- *)
-(* ciborium emits f16 if lossless, else f32 if lossless, else f64.  The    *)
-(* palette floats are listed here with their shortest encodings; any other *)
-(* bit pattern is emitted as f64 and flagged by FloatInTable = FALSE.      *)
-FloatTable ==
-  << <<  <<63,248,0,0,0,0,0,0>>,       <<249, 62, 0>> >>,               \* 1.5
-     <<  <<0,0,0,0,0,0,0,0>>,          <<249, 0, 0>> >>,                \* 0.0
-     <<  <<128,0,0,0,0,0,0,0>>,        <<249, 128, 0>> >>,              \* -0.0
-     <<  <<127,240,0,0,0,0,0,0>>,      <<249, 124, 0>> >>,              \* +inf
-     <<  <<127,248,0,0,0,0,0,0>>,      <<249, 126, 0>> >>,              \* NaN
-     <<  <<63,241,153,153,153,153,153,154>>, <<251,63,241,153,153,153,153,153,154>> >>,  \* 1.1
-     <<  <<65,215,132,107,64,32,0,0>>, <<251,65,215,132,107,64,32,0,0>> >>,  \* 1578234112.5 f64 only
-     <<  <<71,239,255,255,224,0,0,0>>, <<250,127,127,255,255>> >>,      \* f32::MAX
-     <<  <<64,248,106,0,0,0,0,0>>,     <<250,71,195,80,0>> >>           \* 100000.0 (f32)
-  >>
-FloatIdx(bits) == {i \in 1..Len(FloatTable) : FloatTable[i][1] = bits}
-FloatInTable(bits) == FloatIdx(bits) # {}
-EncFloat(bits) == IF FloatInTable(bits) THEN FloatTable[CHOOSE i \in FloatIdx(bits) : TRUE][2]
-                  ELSE <<251>> \o bits
+(* ---------- floats: binary16 / binary32 / binary64 as bit patterns ---------- *)
+(* A float VALUE is its binary64 pattern (8 bytes).  ciborium widens a received f16 / f32 to f64   *)
+(* (half::f16 -> f64 and `as f64`; a signalling NaN comes out quiet) and emits the shortest of     *)
+(* f16 / f32 / f64 whose widening gives back exactly the same 64 bits.  Everything is computed on  *)
+(* bytes: sign s, biased exponent E (11 bits), and the TOP 28 bits of the 52-bit fraction -- every *)
+(* pattern that f16 or f32 can express has the low 24 fraction bits zero.                          *)
+Pow2(n) == 2^n
+HiBit(m) == CHOOSE p \in 0..30 : Pow2(p) <= m /\ m < Pow2(p + 1)
+F64Of(s, E, top28) == << s * 128 + E \div 16, (E % 16) * 16 + top28 \div 16777216, (top28 \div 65536) % 256,
+                         (top28 \div 256) % 256, top28 % 256, 0, 0, 0 >>
+Widen16(h) ==
+  LET s == h[1] \div 128  e == (h[1] % 128) \div 4  m == (h[1] % 4) * 256 + h[2] IN
+  IF e = 0 THEN (IF m = 0 THEN F64Of(s, 0, 0)
+                 ELSE LET p == HiBit(m) IN F64Of(s, 999 + p, (m - Pow2(p)) * Pow2(28 - p)))       \* subnormal: m * 2^-24
+  ELSE IF e = 31 THEN F64Of(s, 2047, IF m = 0 THEN 0 ELSE ((m % 512) + 512) * Pow2(18))            \* inf / NaN (quiet bit set)
+  ELSE F64Of(s, e + 1008, m * Pow2(18))
+Widen32(x) ==
+  LET s == x[1] \div 128  e == (x[1] % 128) * 2 + x[2] \div 128  f == (x[2] % 128) * 65536 + x[3] * 256 + x[4] IN
+  IF e = 0 THEN (IF f = 0 THEN F64Of(s, 0, 0)
+                 ELSE LET p == HiBit(f) IN F64Of(s, 874 + p, (f - Pow2(p)) * Pow2(28 - p)))       \* subnormal: f * 2^-149
+  ELSE IF e = 255 THEN F64Of(s, 2047, IF f = 0 THEN 0 ELSE ((f % 4194304) + 4194304) * 32)
+  ELSE F64Of(s, e + 896, f * 32)
+
+H16(s, e, m) == << s * 128 + e * 4 + m \div 256, m % 256 >>
+F32(s, e, f) == << s * 128 + e \div 2, (e % 2) * 128 + f \div 65536, (f \div 256) % 256, f % 256 >>
+(* <<h>> if some f16 / f32 widens to exactly these 64 bits, <<>> otherwise *)
+Shrink16(b) ==
+  LET s == b[1] \div 128  E == (b[1] % 128) * 16 + b[2] \div 16
+      top28 == (b[2] % 16) * 16777216 + b[3] * 65536 + b[4] * 256 + b[5] IN
+  IF b[6] # 0 \/ b[7] # 0 \/ b[8] # 0 THEN <<>>
+  ELSE IF E = 0 THEN (IF top28 = 0 THEN <<H16(s, 0, 0)>> ELSE <<>>)
+  ELSE IF E = 2047 THEN (IF top28 % Pow2(18) # 0 THEN <<>>
+                         ELSE LET m == top28 \div Pow2(18) IN IF m = 0 \/ m >= 512 THEN <<H16(s, 31, m)>> ELSE <<>>)
+  ELSE IF E >= 1009 /\ E <= 1038 THEN (IF top28 % Pow2(18) = 0 THEN <<H16(s, E - 1008, top28 \div Pow2(18))>> ELSE <<>>)
+  ELSE IF E >= 999 /\ E <= 1008 THEN LET p == E - 999 IN
+         (IF top28 % Pow2(28 - p) = 0 THEN <<H16(s, 0, Pow2(p) + top28 \div Pow2(28 - p))>> ELSE <<>>)
+  ELSE <<>>
+Shrink32(b) ==
+  LET s == b[1] \div 128  E == (b[1] % 128) * 16 + b[2] \div 16
+      top28 == (b[2] % 16) * 16777216 + b[3] * 65536 + b[4] * 256 + b[5] IN
+  IF b[6] # 0 \/ b[7] # 0 \/ b[8] # 0 THEN <<>>
+  ELSE IF E = 0 THEN (IF top28 = 0 THEN <<F32(s, 0, 0)>> ELSE <<>>)
+  ELSE IF E = 2047 THEN (IF top28 % 32 # 0 THEN <<>>
+                         ELSE LET f == top28 \div 32 IN IF f = 0 \/ f >= 4194304 THEN <<F32(s, 255, f)>> ELSE <<>>)
+  ELSE IF E >= 897 /\ E <= 1150 THEN (IF top28 % 32 = 0 THEN <<F32(s, E - 896, top28 \div 32)>> ELSE <<>>)
+  ELSE IF E >= 874 /\ E <= 896 THEN LET p == E - 874 IN
+         (IF top28 % Pow2(28 - p) = 0 THEN <<F32(s, 0, Pow2(p) + top28 \div Pow2(28 - p))>> ELSE <<>>)
+  ELSE <<>>
+EncFloat(bits) ==
+  LET h == Shrink16(bits) IN
+  IF h # <<>> THEN <<249>> \o h[1]
+  ELSE LET x == Shrink32(bits) IN IF x # <<>> THEN <<250>> \o x[1] ELSE <<251>> \o bits
+IsNaN(bits) == (bits[1] % 128) * 16 + bits[2] \div 16 = 2047 /\ (bits[2] % 16 # 0 \/ \E k \in 3..8 : bits[k] # 0)
 
 (* ---------- deterministic encoder ---------- *)
 RECURSIVE Enc(_)
@@ -190,24 +224,6 @@ ReadHead(b, i) ==
 
 (* A declared length as a TLC number, or -1 when it certainly exceeds any input we handle *)
 LenOf(arg) == IF Len(arg) <= 3 THEN NatOf(arg) ELSE 0 - 1
-
-(* f16/f32 widening: table driven over the floats the palettes and generators use; *)
-(* everything else is in the gap zone.                                             *)
-HalfTable ==
-  << << <<62,0>>,   <<63,248,0,0,0,0,0,0>> >>,
-     << <<0,0>>,    <<0,0,0,0,0,0,0,0>> >>,
-     << <<128,0>>,  <<128,0,0,0,0,0,0,0>> >>,
-     << <<124,0>>,  <<127,240,0,0,0,0,0,0>> >>,
-     << <<126,0>>,  <<127,248,0,0,0,0,0,0>> >>,
-     << <<60,0>>,   <<63,240,0,0,0,0,0,0>> >> >>
-SingleTable ==
-  << << <<127,192,0,0>>,     <<127,248,0,0,0,0,0,0>> >>,         \* NaN as f32
-     << <<127,127,255,255>>, <<71,239,255,255,224,0,0,0>> >>,
-     << <<71,195,80,0>>,     <<64,248,106,0,0,0,0,0>> >>,
-     << <<63,192,0,0>>,      <<63,248,0,0,0,0,0,0>> >>,
-     << <<0,0,0,0>>,         <<0,0,0,0,0,0,0,0>> >> >>
-Lookup(tab, k) == LET S == {i \in 1..Len(tab) : tab[i][1] = k} IN
-                  IF S = {} THEN <<>> ELSE <<tab[CHOOSE i \in S : TRUE][2]>>
 
 RECURSIVE ParseItem(_, _, _)
 RECURSIVE ParseElems(_, _, _, _, _)
@@ -316,10 +332,8 @@ ParseItem(b, i, d) ==
             ELSE IF h.raw[1] = 21 THEN Ok(Bool(TRUE), h.n)
             ELSE IF h.raw[1] \in {22, 23} THEN Ok(Nil, h.n)
             ELSE Fail("semantic"))
-         ELSE IF h.ai = 25 THEN LET w == Lookup(HalfTable, h.raw) IN
-                                IF w = <<>> THEN GapFail ELSE Ok(Flt(w[1]), h.n)
-         ELSE IF h.ai = 26 THEN LET w == Lookup(SingleTable, h.raw) IN
-                                IF w = <<>> THEN GapFail ELSE Ok(Flt(w[1]), h.n)
+         ELSE IF h.ai = 25 THEN Ok(Flt(Widen16(h.raw)), h.n)
+         ELSE IF h.ai = 26 THEN Ok(Flt(Widen32(h.raw)), h.n)
          ELSE IF h.ai = 27 THEN Ok(Flt(h.raw), h.n)
          ELSE Fail("semantic")                                       \* lone break
 
